@@ -5,6 +5,8 @@ package main
 import (
 	"errors"
 	"fmt"
+	"os"
+	"os/exec"
 	"sync"
 	"time"
 
@@ -46,7 +48,61 @@ func (b *blockingReader) Read(p []byte) (int, error) {
 	return 1, nil
 }
 
+// escReader delivers first, blocks until released, then returns one ESC byte and then blocks forever
+type escReader struct {
+	first   []byte
+	release chan struct{}
+	n       int
+}
+
+func (b *escReader) Read(p []byte) (int, error) {
+	b.n++
+	switch b.n {
+	case 1:
+		if len(b.first) > 0 {
+			return copy(p, b.first), nil
+		}
+		fallthrough
+	case 2:
+		<-b.release
+		p[0] = 0x1b
+		return 1, nil
+	}
+	select {}
+}
+
+// closeWithEsc is what Vaxis.Suspend does: Close, then the terminal's DA1 reply (which starts
+// with ESC) wakes the reader.  Run in a child process: a timer firing after the channel was
+// closed would panic the whole process.
+func closeWithEsc() {
+	for _, first := range []string{"", "ab", "\x1b]abc"} {
+		br := &escReader{first: []byte(first), release: make(chan struct{})}
+		p := ansi.NewParser(br)
+		done := make(chan struct{})
+		go func() {
+			for seq := range p.Next() {
+				p.Finish(seq)
+			}
+			close(done)
+		}()
+		time.Sleep(20 * time.Millisecond)
+		p.Close()
+		close(br.release)
+		select {
+		case <-done:
+		case <-time.After(3 * time.Second):
+			fmt.Println("parser did not stop after Close + ESC")
+			os.Exit(3)
+		}
+		time.Sleep(40 * time.Millisecond) // an escape timer left armed would fire now
+	}
+	os.Exit(0)
+}
+
 func main() {
+	if os.Getenv("C08_CHILD") == "close-esc" {
+		closeWithEsc()
+	}
 	cfg := hx.ParseFlags()
 	trunc := hx.NewStream("truncate", "model.Parser model.ParserCheck", "pcase", "c08_mismatches", "c08_violations")
 	timing := hx.NewStream("timing", "model.Parser model.ParserCheck", "pcase", "c08_mismatches", "c08_violations")
@@ -231,6 +287,21 @@ func main() {
 			}
 		case <-time.After(3 * time.Second):
 			direct = append(direct, hx.DirectViolation{Class: "close-stops", Case: first, What: "parser keeps running after Close although the reader returned"})
+		}
+	}
+	// 3b. the same with ESC as the wake-up byte (what Suspend provokes), in a child process
+	{
+		cmd := exec.Command(os.Args[0])
+		cmd.Env = append(os.Environ(), "C08_CHILD=close-esc")
+		out, err := cmd.CombinedOutput()
+		closeRuns++
+		if err != nil {
+			tail := string(out)
+			if len(tail) > 400 {
+				tail = tail[len(tail)-400:]
+			}
+			direct = append(direct, hx.DirectViolation{Class: "close-stops", Case: "Close(), then the reader returns a single ESC byte",
+				What: fmt.Sprintf("child process failed: %v: %s", err, tail)})
 		}
 	}
 	cfg.Write("C08", "truncate: grammar-generated streams cut at EVERY byte offset, ended by EOF or by a read error (alternating), read in one or two chunks, half of the runs retaining every delivered sequence without Finish (deep copies compared at the end); timing: heads that leave the parser in each kind of state, then ESC, then 40 ms of real silence, then a tail (majority of up to three runs because real time is involved); close: Close() on a parser blocked in a read whose reader then returns forever. non-trivial = strictly inside the stream / any timing case",
